@@ -15,6 +15,21 @@ CLAIMS = {
         text="Exploration. Random CSG trees (thin features), trilinear random fields and lattice solids at random spacings and search iteration counts: the marching-cubes/squares lattice is observed through a recording solid; every lattice point must have winding number 1/0 as the solid says, the distinct vertices must be in bijection with the sign-changing lattice edges and lie strictly inside them, the two closest evaluated points around each vertex must be classified differently and be no farther apart than spacing/2^iterations, interior points must be contained. Dual contouring with clipping over NoJitter/MaxGos/BufferSize/CubeMargin/TriangleMode/L2Penalty/SingularValueEpsilon: each lattice edge is crossed exactly once iff its ends differ (perturbed exact crossing test), with the normal pointing to the excluded end; one vertex per active cell, inside the cell by the margin; interior points contained and one per active edge.",
         note="Trusted: harness oracles (kit.Winding3/2, kit.AxisCrossings); the dual-contouring lattice is obtained from the verif hook (newDcCubeLayout), so a change of lattice placement is followed automatically. With Repair on only the interior-point clauses are asserted (repair is documented as best effort).",
         design="3/C02"),
+    "C04": dict(
+        technique="property-based testing (rapid): pointwise boolean reference model, permutation metamorphic relation, stateful box-set model",
+        text="Exploration. Operand lists (1-6 operands: primitives, nested CSG trees, exact duplicates; 2D and 3D) x 100-300 query points concentrated at seams, box faces and multiples of the smoothing radius: Joined/Intersected/Subtracted/Stacked equal the boolean formula over the operands' own answers; Optimize, SolidMux.Contains/AllContains/IterContains (incl. nil callback) equal the plain form; unions, intersections, SmoothJoin and SmoothJoinV2 are invariant under random permutations; smooth joins contain the union, equal it at radius 0 and for one operand, and add only points within the radius of two operands. RectSet: random Add/Remove/AddRectSet/RemoveRectSet histories against an occupancy grid, compared at every half-lattice point after every step.",
+        note="Trusted: the operands' own Contains/SDF (only the combinators are under test), the occupancy-grid model. Points where an operand claims membership one ulp outside its own box are skipped for the accelerated forms (that is C03's concern). RectSet boundary points whose status differs between 'set minus' and 'union of remaining boxes' readings are skipped.",
+        design="3/C04"),
+    "C06": dict(
+        technique="property-based testing (rapid) against closed-form reference distances (profile reduction, per-axis clamping) and brute force over faces",
+        text="Exploration. Random primitives (2D and 3D, arbitrary axes, aspect ratios to 1e3) x query points inside, outside, near the surface, on axes and at centres: sign vs Contains, |SDF| vs the reference distance (1e-9 relative), Lipschitz bound on all point pairs, PointSDF point on the boundary at distance |SDF|, NormalSDF unit and equal to the reference outward normal and to -grad SDF where the nearest point is unique and smooth; MeshToSDF (2D, 3D) against an exhaustive minimum over faces and winding-number sign, FaceSDF/NormalSDF against the unique nearest face; ProfileSDF/ProfilePointSDF against a case-split reference; ColliderToSDF and TransformSDF against the primitive's reference.",
+        note="Trusted: reference distances in harness/gen (independent decomposition; calibrated to 5e-14 against the library on 320k queries during design). Normal clauses are only asserted where the reference reports a unique smooth nearest point with margin. Known finding C06-cone-near-axis is excluded by construction while it persists.",
+        design="3/C06"),
+    "C15": dict(
+        technique="property-based round-trip testing (rapid) + native go fuzzing (thorough) with independent format encoders/decoders as second oracle",
+        text="Exploration. Meshes (empty, single face, shared/duplicated vertices, huge, float32-subnormal, -0, non-representable coordinates) through binary STL, coloured PLY and segment CSV writers and readers; random PLY headers (zero counts anywhere, every type name and list-length type, three encodings, raw bit-pattern values) through PLYWriter/PLYReader with an independent byte-level check of what reached the underlying writer; harness-written ASCII STL and OFF text variants; OBJ/MTL/3MF exports parsed by the harness (every face once, indices in range, material groups partition by colour).",
+        note="Trusted: harness-side encoders/decoders (math/big for decimal numerals). ASCII NaN compared by class; OFF polygon triangle orientation not asserted (documented undefined).",
+        design="3/C15"),
     "C09": dict(
         technique="model-based (stateful) property testing with rapid: operation histories against a reference face list / Go map",
         text="Exploration. Random histories (<= 45 steps) of Add/Remove/AddMesh/Copy/DeepCopy/Translate/Scale/MapCoords (merging)/Transform/InvertNormals interleaved with queries that build the lazy vertex index at arbitrary moments, for 2D and 3D meshes, compared after every step with a brute-force model over the harness's own list of face pointers; histories over all six coordinate/edge map types of both packages against a Go map keyed by the same type, with hash-colliding and signed-zero keys; and outputs of the library's in-place editors (marching-cubes search, FlattenBase, EliminateEdges, decimation, dual contouring with repair) compared with a fresh mesh of their faces, also after further edits.",
